@@ -13,6 +13,7 @@ import re
 import subprocess
 import time
 import vlib
+from props import c14d
 
 EXPECT_REPLY = ("sub", "leave", "deltopic", "deluser")
 
@@ -468,6 +469,9 @@ def parse_out(text):
             b["abandoned"].append(int(w[1]))
         elif w[0] == "injected":
             b["injected"].append(int(w[2]))
+        elif w[0] == "fault":
+            # fault <session> <rid> <adapter method> fired=<0|1>   (zz_verif_c14d_test.go)
+            b.setdefault("faults", {})[(int(w[1]), w[2])] = (w[3], w[4] == "fired=1")
         elif w[0] == "state" and w[1] == "sess":
             d = dict(p.split("=", 1) for p in w[3:])
             d["subs"] = set(int(x) for x in d["subs"].split(",") if x and not x.startswith("?"))
@@ -556,7 +560,8 @@ def requests_of(burst_lines):
         w = l.split()
         if w[0] == "q":
             res.append(dict(si=int(w[1]), rid=w[2], kind=w[3], k=int(w[4]) if len(w) > 4 else None,
-                            arg=w[5] if len(w) > 5 and not w[5].startswith("as=") else None,
+                            arg=w[5] if len(w) > 5 and not w[5].startswith("as=") and not w[5].startswith("fault=") else None,
+                            fault=([x[6:] for x in w[5:] if x.startswith("fault=")] or [None])[0],
                             **{"as": ([x[3:] for x in w[5:] if x.startswith("as=")] or [None])[0]}))
     return res
 
@@ -873,6 +878,7 @@ def monitor0(sc, r):
                         si, u, ", channel reader" if reader else "", ", attached to 'me'" if on_me else ", not attached to 'me'", k)))
             deleted.add(k)
         prev = b
+    res += c14d.monitor_faults_c14d(sc, r)
     f = r.get("final")
     if f:
         if int(f["goroutines"]) - int(f.get("leaked", 0)) != int(f["baseline"]):
